@@ -329,6 +329,7 @@ type Conn struct {
 	rdl, wdl   time.Time
 	rtim, wtim *time.Timer
 
+	waiting  int   // goroutines blocked in Read on this end
 	written  int64 // bytes this end wrote
 	consumed int64 // bytes this end read
 	reads    int
@@ -373,7 +374,9 @@ func (c *Conn) Read(p []byte) (int, error) {
 		if !c.rdl.IsZero() && !time.Now().Before(c.rdl) {
 			return 0, c.opErr("read", os.ErrDeadlineExceeded)
 		}
+		c.waiting++
 		c.cond.Wait()
+		c.waiting--
 	}
 }
 
@@ -588,21 +591,22 @@ func (c *Conn) TakeSegments() [][]byte {
 }
 
 type Status struct {
-	Pending    int  // bytes queued towards this end
-	EOF        bool // peer sent FIN (or closed); visible once Pending == 0
-	Reset      bool // peer aborted
-	PeerClosed bool // peer released its end
-	Closed     bool // this end released
-	PeerWrote  int64
-	PeerRead   int64
-	PeerCloses int
+	Pending     int  // bytes queued towards this end
+	EOF         bool // peer sent FIN (or closed); visible once Pending == 0
+	Reset       bool // peer aborted
+	PeerClosed  bool // peer released its end
+	Closed      bool // this end released
+	PeerWrote   int64
+	PeerRead    int64
+	PeerCloses  int
+	PeerReading bool // a goroutine of the other side is blocked in Read
 }
 
 func (c *Conn) Status() Status {
 	c.mu.Lock()
 	defer c.mu.Unlock()
 	return Status{Pending: c.inBytes, EOF: c.eof, Reset: c.rst, PeerClosed: c.peer.closed, Closed: c.closed,
-		PeerWrote: c.peer.written, PeerRead: c.peer.consumed, PeerCloses: c.peer.closes}
+		PeerWrote: c.peer.written, PeerRead: c.peer.consumed, PeerCloses: c.peer.closes, PeerReading: c.peer.waiting > 0}
 }
 
 // Peer returns the other end (harness use only).
